@@ -179,6 +179,30 @@ int main(int argc, char **argv) {
         if (i < 3) vf_sample("random string #%ld: length %zu class %s", i, len, (const char *[]){"random", "all-zero", "all-0xff", "ascii"}[cls]);
         hm_free(x);
     }
+    /* long strings: 64 KiB, 128 KiB, 1 MiB and 4 MiB boundaries (counters of 16 bits and block bookkeeping) */
+    caseno = 600000000L;
+    { static const size_t LG[] = {65535, 65536, 65537, 65538, 65539, 131071, 131072, 131073, 196608, 200000, 1048575, 1048577, (4u << 20) + 1};
+      for (size_t i = 0; i < sizeof LG / sizeof LG[0]; i++, caseno++) { if (!vf_mine(caseno)) continue;
+          rng_seed(&R, VF.seed, (uint64_t)caseno); size_t len = LG[i]; unsigned char *x = hm_alloc(len); int cls = (int)(i % 3);
+          for (size_t k = 0; k < len; k++) x[k] = cls == 0 ? (unsigned char)rng_next(&R) : cls == 1 ? (unsigned char)(32 + k % 95) : (unsigned char)(k * 7 + (k >> 16));
+          vf_case_begin(caseno, "long string len=%zu class=%d", len, cls);
+          check_string(x, len); vf_count("long_strings", 1); vf_max("max_string_length", (long)len); vf_distinct("distinct", vf_hash(x, len, VF_H0)); hm_free(x); } }
+    /* beyond 2 GiB (thorough tier): Base64 and hex, checked block-wise against the reference encoder */
+    if (vf_arg_long("huge", 0)) for (int which = 0; which < 2; which++, caseno++) { if (!vf_mine(caseno)) continue;
+        size_t len = ((size_t)1 << 31) + (which ? 16 : 300); unsigned char *x = malloc(len);
+        vf_case_begin(caseno, "%s of %zu bytes", which ? "hex" : "Base64", len);
+        if (!x) { vf_count("huge_string_unallocatable", 1); continue; }
+        for (size_t k = 0; k < len; k += 8) { uint64_t v = k * 0x9E3779B97F4A7C15ULL; memcpy(x + k, &v, len - k < 8 ? len - k : 8); }
+        char *e = which ? qhex_encode(x, len) : qbase64_encode(x, len);
+        size_t want = which ? 2 * len : 4 * ((len + 2) / 3);
+        if (!e) { vf_count("huge_string_unallocatable", 1); free(x); continue; }
+        size_t el = strlen(e); bool ok = true;
+        if (el != want) { ok = false; fail(which ? "hex-format" : "b64-format", x, 16, "the encoding of %zu bytes has %zu characters, expected %zu", len, el, want); }
+        for (size_t off = 0; ok && off < len; off += 3 * 4096) { size_t n = len - off < 3 * 4096 ? len - off : 3 * 4096; char ref[4 * 4096 * 2 + 8];
+            if (which) { static const char HX[] = "0123456789abcdef"; for (size_t i = 0; i < n; i++) { ref[2 * i] = HX[x[off + i] >> 4]; ref[2 * i + 1] = HX[x[off + i] & 15]; } if (memcmp(e + 2 * off, ref, 2 * n)) { ok = false; fail("hex-format", x, 16, "the encoding of %zu bytes differs from the reference in the block at input offset %zu", len, off); } }
+            else { size_t rl = ref_b64(x + off, n, ref); if (memcmp(e + off / 3 * 4, ref, rl)) { ok = false; fail("b64-format", x, 16, "the encoding of %zu bytes differs from RFC 4648 in the block at input offset %zu", len, off); } } }
+        if (ok) { size_t dl = which ? qhex_decode(e) : qbase64_decode(e); if (dl != len || memcmp(e, x, len)) fail(which ? "hex-roundtrip" : "b64-roundtrip", x, 16, "decode(encode(x)) of %zu bytes has length %zu and/or other bytes", len, dl); }
+        free(e); free(x); vf_count("huge_strings", 1); vf_count("evaluations", 1); vf_max("max_string_length", (long)len); }
     caseno = 700000000L;
     for (long i = 0; i < nquery; i++, caseno++) { if (!vf_mine(caseno)) continue; rng_seed(&R, VF.seed, (uint64_t)caseno); check_query(caseno); }
 done:
